@@ -7,7 +7,7 @@ use crate::delta_e::ciede2000;
 use crate::{Color, Lab};
 
 static ANSI_LAB_REPRESENTATIONS: Lazy<Vec<(u8, Lab)>> = Lazy::new(|| {
-    (16..255)
+    (16..=255)
         .map(|code| (code, Color::from_ansi_8bit(code).to_lab()))
         .collect()
 });
